@@ -1,9 +1,9 @@
 -------------------------- MODULE Trace_Rfc8888 --------------------------
 (* (T) validates ndjson traces recorded from pkg/rfc8888 (Recorder and SenderInterceptor) against Rfc8888.
-   Events (clock values are millisecond offsets from the harness's base time):
+   Events (clock values are MICROSECOND offsets from the harness's base time):
      {"a":"reset","level":"rec"|"icpt","ntp16":n}        new instance; n = NTP seconds of the base modulo 2^16
-     {"a":"add","s":ssrc,"n":n16,"t":tMs,"ecn":e}        AddPacket / a packet read through the interceptor
-     {"a":"build","now":tMs,"max":maxSize,"len":bytes,"rts_s":hi16,"rts_f":lo16,
+     {"a":"add","s":ssrc,"n":n16,"t":tUs,"ecn":e}        AddPacket / a packet read through the interceptor
+     {"a":"build","now":tUs,"max":maxSize,"len":bytes,"rts_s":hi16,"rts_f":lo16,
       "blocks":[{"s":ssrc,"begin":n16,"m":[[received,ecn,offset],..]},..]}
                                                           BuildReport / the report written after a tick
    Blocks are compared as a set keyed by SSRC.  The begin number of an empty block is not compared (the property
